@@ -8,6 +8,26 @@ STRS = ['a', 'b', 'ab', 'abc', 'x', 'ba', 'c', '']
 TYPES = ['Int', 'String', 'Array', 'List', 'Tuple', 'Table', 'Tree', 'Range', 'Slice', 'Zip', 'Plain', 'Float']
 
 
+def range_len(a, b, c):
+    """number of elements of range(a, b, c); step 0 has none"""
+    if c == 0 or b <= a: return 0
+    return (b - 1 - a) // abs(c) + 1
+def range_len_ok(a, b, c):
+    """Range_Len's own int64 arithmetic ((stop-1) - start, -step, … + 1) does not overflow: the ranges both sides construct"""
+    if c == 0 or b <= a: return True
+    return b - 1 - a <= I64MAX and c != I64MIN and range_len(a, b, c) <= I64MAX
+def range_indices(a, b, c):
+    """the interesting indices of range(a, b, c): both ends of [-len, len), the int64 limits, and the places where the old
+    `start + step*i` left int64 (around INT64_MAX/|step| and (INT64_MAX - start)/step)"""
+    n = range_len(a, b, c); out = [0, 1, -1, n - 1, n, n + 1, -n, -n - 1, -n + 1, I64MAX, I64MIN, I64MAX - 1, I64MIN + 1, 2**62, 2**62 + 1, -2**62]
+    if c != 0:
+        q = I64MAX // abs(c); out += [q - 1, q, q + 1, q + 2, -q, -q - 1]
+        base = a if c > 0 else b - 1
+        lim = (I64MAX - base) // abs(c) if c > 0 else (base - I64MIN) // abs(c)
+        out += [lim - 1, lim, lim + 1, lim + 2]
+    return [x for x in out if I64MIN <= x <= I64MAX]
+
+
 class Gen:
     """one op file: a history of valid and invalid operations over freshly numbered objects"""
     def __init__(self, rng, max_len=8):
@@ -138,7 +158,9 @@ class Gen:
         sub = lambda: 's' + r.choice(STRS + ['a', 'b', 'c', 'bc', 'xa', 'aa'])
         x = r.random()
         if x < 0.12: self.op(f'mem {i} {r.choice([sub(), sub(), "N", "i3"])}')
-        elif x < 0.30: self.op(f'rem {i} {r.choice([sub(), sub(), sub(), "N"])}')      # a non-String argument: known finding
+        elif x < 0.30:
+            # rem: present / absent substring, NULL, and an argument that has no C string (Int, Plain: ClassError since fix e60e6ec)
+            self.op(f'rem {i} {r.choice([sub(), sub(), sub(), "N", "i3", "p1", "i0", self.val("int"), "p0"])}')
         elif x < 0.42: self.op(f'resize {i} {r.randrange(0, 10)}')
         elif x < 0.58: self.op(f'{r.choice(["concat", "append"])} {i} {r.choice([sub(), sub(), "N", "i3", "p1"])}')
         elif x < 0.66: self.op(f'assign {i} {r.choice([sub(), sub(), "N", "i3", "p1"])}')
@@ -166,13 +188,17 @@ class Gen:
         r = self.r; o = self.objs[i]; k = o['kind']
         x = r.random()
         if x < 0.7:
+            # every int64 index on every range / slice, step 0 included (the bounds test precedes the arithmetic since fix 81e7452)
             if k == 'rng':
-                big = o['step'] == 1 and o['start'] <= 0
-                self.op(f'get {i} {self.index(big=big)}')
-            elif k == 'slc': self.op(f'get {i} {self.index(big=False)}')
+                if r.random() < 0.45: self.op(f'get {i} i{r.choice(range_indices(o["start"], o["stop"], o["step"]))}')
+                else: self.op(f'get {i} {self.index()}')
+            elif k == 'slc':
+                if r.random() < 0.25 and o['step'] != 0:
+                    q = I64MAX // abs(o['step']); self.op(f'get {i} i{r.choice([q - 1, q, q + 1, -q, -q - 1, I64MAX, I64MIN])}')
+                else: self.op(f'get {i} {self.index()}')
             else: self.op(f'get {i} {self.index()}')
         elif x < 0.8: self.op(f'len {i}')
-        elif x < 0.85 and k == 'rng': self.op(f'mem {i} i{r.randrange(-3, 12)}')
+        elif x < 0.85 and k == 'rng' and o.get('small'): self.op(f'mem {i} i{r.randrange(-3, 12)}')
         else: self.op(r.choice([f'set {i} i0 i0', f'rem {i} i0', f'push {i} i0', f'pop {i}', f'resize {i} 2', f'assign {i} i3', f'assign {i} N', f'concat {i} i1', f'print {i} 0 Lz |']))
 
     def misc_op(self, i):
@@ -197,6 +223,27 @@ class Gen:
                           'len N', 'append N sab', 'assign N i1', 'concat N i1', 'typeof N', 'cast N Int', 'cast N Table', 'dealloc N']))
 
 
+def random_range(r):
+    """start, stop, step of a Range: small ones, step 0, huge steps, and ranges next to either int64 limit — every triple for which
+    Range_Len itself does not overflow"""
+    while True:
+        x = r.random()
+        if x < 0.40:
+            a = r.randrange(-3, 4); b = a + r.randrange(-2, 12); c = r.choice([1, 1, 2, 3, -1, -2, -3])
+        elif x < 0.55:
+            a = r.randrange(-3, 4); b = a + r.randrange(-2, 12); c = 0
+        elif x < 0.65:
+            a = r.randrange(-5, 6); b = a + r.randrange(0, 40); c = r.choice([2**31, -2**31, 2**40, -2**40, 2**62, -2**62, I64MAX, I64MIN + 1, 2**32 + 1])
+        elif x < 0.78:
+            b = I64MAX - r.randrange(0, 4); a = b - r.randrange(0, 30); c = r.choice([1, 2, 3, 7, -1, -2, -5, 0])
+        elif x < 0.90:
+            a = I64MIN + r.randrange(0, 4); b = a + r.randrange(0, 30); c = r.choice([1, 2, 3, 7, -1, -2, -5, 0])
+        else:
+            a, b = r.choice([(0, I64MAX), (I64MIN, -1), (-2**62, 2**62 - 1), (1, I64MAX), (I64MIN, 0), (-5, I64MAX - 7), (I64MIN, I64MAX), (I64MAX, I64MIN)])
+            c = r.choice([1, -1, 2, 2**32, -2**32, 2**62, I64MAX, I64MIN + 1, 0, 3])
+        if range_len_ok(a, b, c): return a, b, c
+
+
 def history(rng, family, nops, max_len=8):
     g = Gen(rng, max_len)
     r = rng
@@ -214,12 +261,12 @@ def history(rng, family, nops, max_len=8):
         pick = lambda: g.str_op(r.choice(g.ids('str')))
     elif family == 'view':
         bases = [g.new_seq(r.choice(['arr', 'lst', 'tup']), 'int', 'heap') for _ in range(4)]
-        for _ in range(4):
-            step = r.choice([1, 1, 2, 3, -1, -2])
-            start = r.randrange(-3, 4)
-            g.new('rng', start, start + r.randrange(-2, 12), step, start=start, step=step)
-        for _ in range(5):
-            g.new('slc', r.choice(bases), r.randrange(-4, 6), r.randrange(-4, 10), r.choice([1, 1, 2, -1]))
+        for _ in range(9):
+            a, b, c = random_range(r)
+            g.new('rng', a, b, c, start=a, stop=b, step=c, small=all(abs(v) <= 1000000 for v in (a, b, c)))
+        for _ in range(6):
+            st = r.choice([1, 1, 2, -1, -2, 3, 0, 0, 1000000, -1000000])
+            g.new('slc', r.choice(bases), r.randrange(-4, 6), r.randrange(-4, 10), st, step=st)
         for _ in range(4): g.new('zip', r.choice(bases), r.choice(bases))
         def pick():
             if r.random() < 0.12: g.seq_op(r.choice(bases))       # the iterables under the views change too
@@ -227,7 +274,7 @@ def history(rng, family, nops, max_len=8):
     else:  # misc
         g.new_seq('arr', 'int'); g.new_seq('lst', 'str'); g.new_seq('tup', 'int', 'stack'); g.new_seq('tup', 'int', 'heap')
         g.new_map('tab'); g.new_map('tre'); g.new_str('heap'); g.new_str('stack'); g.new_str('static')
-        g.new('rng', 0, 5, 1, start=0, step=1)
+        g.new('rng', 0, 5, 1, start=0, stop=5, step=1, small=True)
         for al in ('heap', 'stack', 'static'):
             g.new('val', al, f'i{r.randrange(9)}', alloc=al); g.new('val', al, f'p{r.randrange(4)}', alloc=al)
         def pick():
@@ -267,6 +314,37 @@ def boundary_sweep():
     return out
 
 
+def range_sweep():
+    """Range / Slice get at both ends of [-len, len), at the int64 limits and where `start + step*i` leaves int64, for ranges with
+    positive / negative / zero / huge steps and ranges next to the int64 limits; each get is followed by len and a valid get"""
+    out = []
+    ranges = [(0, 5, 1), (0, 5, 0), (3, 3, 0), (0, 10, 2), (0, 10, -3), (1, 5, 1), (5, 1, 1), (-3, 4, 2), (0, 1, I64MAX), (0, 100, 2**62),
+              (0, 100, -2**62), (I64MAX - 7, I64MAX, 3), (I64MAX - 7, I64MAX, -2), (I64MAX - 1, I64MAX, 1), (I64MIN, I64MIN + 10, -4),
+              (I64MIN, I64MIN + 10, 4), (I64MIN, I64MIN + 1, 1), (0, I64MAX, 1), (0, I64MAX, -1), (I64MIN, -1, 1), (-2**62, 2**62 - 1, 1),
+              (-5, I64MAX - 7, I64MAX), (I64MIN, 0, I64MIN + 1), (0, I64MAX, 2**32), (I64MIN, I64MAX, 0), (I64MAX, I64MIN, 1), (7, 7, -1)]
+    for (a, b, c) in ranges:
+        assert range_len_ok(a, b, c)
+        lines = [f'new 0 rng {a} {b} {c}', 'len 0']
+        for ix in range_indices(a, b, c):
+            lines += [f'get 0 i{ix}', 'len 0', 'get 0 i0']
+        lines += ['get 0 sx', 'get 0 p1', 'get 0 N', 'set 0 i0 i0', 'rem 0 i0', 'len 0']
+        out.append(Case(f'sweep_rng_{a}_{b}_{c}', lines))
+    for n in (0, 1, 4):
+        for (a, b, c) in [(0, 4, 1), (0, 4, 0), (1, 9, 2), (0, 4, -1), (-3, -1, 1), (0, 9, 1000000), (0, 9, -1000000), (2, 2, 0)]:
+            vals = ' '.join(f'i{10 + k}' for k in range(n))
+            lines = [f'new 0 arr int {vals}'.rstrip(), f'new 1 slc 0 {a} {b} {c}', 'len 1']
+            q = I64MAX // abs(c) if c else 0
+            for ix in list(range(-n - 2, n + 3)) + [I64MAX, I64MIN, I64MAX - 1, I64MIN + 1, 2**62 + 1, q, q + 1, -q - 1]:
+                lines += [f'get 1 i{ix}', 'len 1', 'len 0']
+            out.append(Case(f'sweep_slc_{n}_{a}_{b}_{c}', lines))
+    for alloc in ('heap', 'stack', 'static'):
+        lines = [f'new 0 str {alloc} sabcab']
+        for a in ('i0', 'i5', f'i{I64MAX}', f'i{I64MIN}', 'p0', 'p1', 'N', 'sq', 'sca', 's', 'i3', 'sab', 'p2', 'sab', 'sab'):
+            lines += [f'rem 0 {a}', 'len 0']
+        out.append(Case(f'sweep_str_rem_{alloc}', lines))
+    return out
+
+
 class C12(Spec):
     id = 'C12'; engine = 'fail'; harness = 'h_fail'; driver = 'drv_fail'
     generators = ()
@@ -277,20 +355,25 @@ class C12(Spec):
     technique = ('Lean 4 proofs over an executable model of the argument validation and mutation order of every fallible container / '
                  'value operation (index arithmetic on BitVec 64); white-box differential check of the model against the real library; '
                  'independent reference + before/after dump oracle in C under ASan/UBSan, risky calls probed in a forked child')
-    level_text = ('Theorems over the executable model lean/Cello/Fail.lean (46, no sorry): C12_failure_atomic — for every store of objects (Array, List, '
+    level_text = ('Theorems over the executable model lean/Cello/Fail.lean (49, no sorry): C12_failure_atomic — for every store of objects (Array, List, '
                   'heap and stack Tuple, Table, Tree, heap/stack/static String, Range, Slice, Zip, plain Int/Plain values), every object and every '
                   'operation outside the territories of the known findings, an operation that raises leaves the observable state of every object '
                   'unchanged (C12_failure_atomic_exact: the very same store, unless the object is a slot-less Table or a Slice); per type '
                   'C12_failure_atomic_<type> and C12_raises_exactly_<type>: the exception raised is exactly the one a declarative specification '
                   'documents for exactly the invalid arguments (index outside [-len, len) for every 64-bit index incl. INT64_MIN/MAX through the '
-                  'size_t/int64_t conversions — C12_index_raises_exactly on BitVec 64; empty pop; absent key / element / substring; wrong-typed or '
+                  'size_t/int64_t conversions — C12_index_raises_exactly on BitVec 64; Range_Get for every int64 start/stop/step (step 0 included) whose '
+                  'Range_Len does not overflow and every int64 index, with every signed operation of the model carrying an overflow test that the '
+                  'theorem shows never fires inside the bounds test — C12_raises_exactly_range, C12_range_get_value, C12_range_get_arith_in_int64, '
+                  'C12_range_step0_refuses_all; empty pop; absent key / element / substring; wrong-typed or '
                   'NULL key, value, element, index; unimplemented class or member; non-heap Tuple/String for a reallocating operation; unsupported '
                   'resize; too few / wrong-typed print_to arguments; dealloc of a non-heap object; calls on NULL); C12_then_usable: after a failed '
                   'operation every further operation on every object behaves as on the original store; C12_invariant_*: the typing / slot invariants '
                   'the theorems assume are preserved along every history. The model is tied to the C code by executing thousands of valid/invalid '
                   'operation histories on both and comparing result, exception type and a white-box dump after every operation; an independent C '
                   'reference and a before/after dump oracle run on the real library under ASan/UBSan. Deviations the code really has are modelled '
-                  'as they are, proved as *_refuted theorems on concrete witnesses and listed as known findings.')
+                  'as they are, proved as *_refuted theorems on concrete witnesses and listed as known findings; defects repaired by a fix: commit '
+                  '(Range_Get step 0 / overflow, String_Rem of a non-String) keep their *_refuted theorem as a statement about an explicit OLD '
+                  'variant of the model function (Lemmas/FailOld.lean) next to what the current model does on the same witness.')
     level_note = ('Trusted: Lean kernel; the hand-written model lean/Cello/Fail.lean (validated by the correspondence, which is testing); harness and '
                   'driver; libc. Not covered: allocation failure (OutOfMemoryError paths), Float/File/Thread objects, iteration of views (C11), '
                   'states reached through a known finding on String-element arrays.')
@@ -298,7 +381,10 @@ class C12(Spec):
             'plain Int/Plain objects; about half the operations carry an invalid argument (index one past either end, far out, at the int64 limits, '
             'of the wrong type, NULL; absent or wrong-typed key/value/element; empty pop; unsupported resize; method the type lacks; non-heap target; '
             'too few / wrong-typed print arguments; dealloc of stack/static/data objects; calls on NULL) and are followed by further valid operations; '
-            'plus an exhaustive index sweep (-n-2..n+2 and int64 limits, sizes 0..4, get/set/pop_at/push_at on the three sequence types). '
+            'plus an exhaustive index sweep (-n-2..n+2 and int64 limits, sizes 0..4, get/set/pop_at/push_at on the three sequence types) and a '
+            'Range/Slice sweep (27 ranges: steps 0, ±1..±3, ±2^62, INT64_MAX, fields at the int64 limits; indices at both ends of [-len, len), '
+            '±2^63 and around INT64_MAX/|step| and (INT64_MAX-start)/step; slices with step 0 / ±10^6; rem of Int/Plain/NULL on heap/stack/static '
+            'Strings). Ranges of the histories take any int64 start/stop/step for which Range_Len does not overflow (step 0: ~15%). '
             'Each op is run on the real library (first in a forked child when a failure is expected), result + white-box dump compared with the Lean '
             'model, public dump before/after compared, and compared with an independent C reference. non-trivial item = a (operation, resulting '
             'observation) pair whose result is an exception or ub; distinct = distinct text.')
@@ -310,21 +396,24 @@ class C12(Spec):
                    'not generated (known findings, each with witness corpus/kf_c12_*.ops and a _refuted theorem): wrong-typed / NULL element pushed, '
                    'inserted or concatenated into an Array (F15); print_to failing after its first segment (F29); concat into a List from a source with '
                    'a wrong-typed element; assign into Array/List/Table/Tree from a non-iterable; foreach over an object without Iter (concat/assign from '
-                   'a scalar: NULL instance pointer dereferenced); rem/mem on a String with a non-String argument; get on a Range with step 0; Range/Slice get with a positive index large '
-                   'enough to overflow start + step*i',
+                   'a scalar: NULL instance pointer dereferenced)',
+                   'not constructed (both sides answer bad-op): a Range whose Range_Len itself overflows int64 ((stop-1)-start > INT64_MAX, step '
+                   'INT64_MIN, or a length of 2^63): len and get are undefined behaviour there (Rng.get_lenOverflow); mem on a Range with a field '
+                   'beyond 10^6 (Range_Mem is modelled without overflow)',
                    'not generated: NULL stored into a Tuple; growing a List of String by resize (creates NULL strings); print_to at a position beyond the '
                    'end of the sink; nested views; allocation failure')
 
     def cases(self, rng, tier, boost=1):
         quick = tier == 'quick'
         cs = []
-        plan = [('seq', 7, 260), ('map', 4, 220), ('str', 4, 220), ('view', 3, 200), ('misc', 2, 200)] if quick else \
+        plan = [('seq', 7, 260), ('map', 4, 220), ('str', 4, 220), ('view', 5, 220), ('misc', 2, 200)] if quick else \
                [('seq', 180, 900), ('map', 90, 900), ('str', 90, 900), ('view', 72, 700), ('misc', 36, 600)]
         for fam, ncases, nops in plan:
             for k in range(ncases * boost):
                 ml = 8 if k % 3 else (3 if k % 2 else 20)
                 cs.append(Case(f'{fam}{k}', history(rng, fam, nops, ml)))
         cs += boundary_sweep()
+        cs += range_sweep()
         return cs
 
     def nontrivial_items(self, case, c_out, m_out):
@@ -334,9 +423,25 @@ class C12(Spec):
 
     def stats(self, case, c_out, m_out, acc):
         ops = [l for l in case.lines if l and not l.startswith('#')]
+        steps = {}; strs = set()      # id -> step of a Range / Slice; ids of Strings
         for op, o in zip(ops, core.lines_with('O ', c_out)):
             acc['ops'] = acc.get('ops', 0) + 1
             res = o[2:].split(' ')[0]
+            w = op.split(' ')
+            # the territory that was excluded while Range_Get / String_Rem were known findings
+            if w[0] == 'new' and len(w) >= 3 and res == 'new':
+                if w[2] in ('rng', 'slc'):
+                    try: steps[w[1]] = int(w[-1])
+                    except ValueError: pass
+                    if w[2] == 'rng' and any(abs(int(v)) > 2**40 for v in w[3:6]): acc['range_fields_beyond_2^40'] = acc.get('range_fields_beyond_2^40', 0) + 1
+                elif w[2] == 'str': strs.add(w[1])
+            elif w[0] == 'get' and len(w) == 3 and w[1] in steps and w[2][:1] == 'i' and res != 'bad-op':
+                if steps[w[1]] == 0: acc['range_get_step0'] = acc.get('range_get_step0', 0) + 1
+                try:
+                    if abs(int(w[2][1:])) > 2**40: acc['range_get_index_beyond_2^40'] = acc.get('range_get_index_beyond_2^40', 0) + 1
+                except ValueError: pass
+            elif w[0] == 'rem' and len(w) == 3 and w[1] in strs and w[2][:1] in ('i', 'p') and res != 'bad-op':
+                acc['string_rem_non_string'] = acc.get('string_rem_non_string', 0) + 1
             key = res if res.startswith('raised:') else res.split(':')[0]
             acc[key] = acc.get(key, 0) + 1
             if res.startswith('raised:'):
